@@ -195,6 +195,62 @@ theorem content_length_never_exceeded (r : Req) (n : Nat) (script : List Ev) (s 
     rw [h] at h1 h2
     exact ⟨head, body, rfl, h1, by omega⟩
 
+/-! ### request objects with a history (retries, attributes assigned after construction) -/
+
+/-- What can happen to a `Request` object before the `writeTo` that is looked at: its public
+    attributes are assigned, and it is written to other transports (a retry on a fresh
+    connection).  `writeTo` assigns no attribute of the request, so an earlier write leaves the
+    record as it is. -/
+inductive Op where
+  | setMethod (m : Bytes)
+  | setUri (u : Bytes)
+  | setHeaders (h : HeaderStore)
+  | setPersistent (p : Bool)
+  | written (body : Body) (script : List Ev)
+
+def applyOp (r : Req) : Op → Req
+  | .setMethod m => { r with method := m }
+  | .setUri u => { r with uri := u }
+  | .setHeaders h => { r with headers := h }
+  | .setPersistent p => { r with persistent := p }
+  | .written _ _ => r
+
+/-- **Refusal, for a request object with any history.**  Whatever was assigned to the request and
+    however often it was written before, if its method or target is invalid at the moment of
+    `writeTo` there is no transport state: the call ends in an exception before the first write. -/
+theorem invalid_refused_whatever_the_history (r0 : Req) (ops : List Op) (body : Body) (script : List Ev)
+    (hbad : ¬ (istoken (ops.foldl applyOp r0).method = true ∧ validURI (ops.foldl applyOp r0).uri = true)) :
+    ∃ e, writeTo (ops.foldl applyOp r0) body script = .error e := by
+  generalize ops.foldl applyOp r0 = r at hbad
+  have hb : ∀ te, ∃ e, headerBlock r te = .error e := by
+    intro te
+    unfold headerBlock
+    by_cases hh : (getRaw r.headers (ClientRequest.ofStr "Host")).length ≠ 1
+    · exact ⟨.badHeaders, by simp [hh]⟩
+    · by_cases h3 : istoken r.method = true
+      · have h4 : validURI r.uri ≠ true := fun h4 => hbad ⟨h3, h4⟩
+        exact ⟨.valueError, by simp [hh, h3, h4]⟩
+      · exact ⟨.valueError, by simp [hh, h3]⟩
+  cases body with
+  | none =>
+    obtain ⟨e, he⟩ := hb (if r.method = ClientRequest.ofStr "PUT" ∨ r.method = ClientRequest.ofStr "POST"
+      then ClientRequest.ofStr "Content-Length: 0\r\n" else [])
+    exact ⟨e, by simp only [writeTo, he, Except.map]⟩
+  | unknown =>
+    obtain ⟨e, he⟩ := hb (ClientRequest.ofStr "Transfer-Encoding: chunked\r\n")
+    exact ⟨e, by simp only [writeTo, he, Except.map]⟩
+  | known n =>
+    obtain ⟨e, he⟩ := hb (ClientRequest.ofStr "Content-Length: " ++ decimal n ++ crlf)
+    exact ⟨e, by simp only [writeTo, he, Except.map]⟩
+
+/-- … and what a request with a history writes is what a freshly built request with the same four
+    attribute values writes: the serialisation theorems above apply to it as they stand. -/
+theorem written_bytes_depend_on_current_attributes_only (r0 : Req) (ops : List Op) (body : Body) (script : List Ev) :
+    writeTo (ops.foldl applyOp r0) body script =
+      writeTo { method := (ops.foldl applyOp r0).method, uri := (ops.foldl applyOp r0).uri,
+                headers := (ops.foldl applyOp r0).headers, persistent := (ops.foldl applyOp r0).persistent }
+        body script := rfl
+
 /-! ### non-vacuity -/
 
 def exReq : Req :=
@@ -226,5 +282,10 @@ example : (match run (ClientRequest.ofStr "GET") (ClientRequest.ofStr "/") (some
     exReq.headers false .unknown [.write [1], .ret] with
     | .error .valueError => true
     | _ => false) = true := by decide
+
+-- a request first written as `GET /first`, then pointed at an invalid target: refused
+example : ∃ e, writeTo (([Op.written .none [], .setUri (ClientRequest.ofStr "/bad uri")] : List Op).foldl applyOp exReq)
+    .none [] = .error e :=
+  invalid_refused_whatever_the_history exReq _ .none [] (by decide)
 
 end TwistedProps.C24
